@@ -6,6 +6,10 @@ HERE = os.path.dirname(os.path.dirname(os.path.abspath(__file__)))
 
 # id -> (level category, technique, level text, level note, design ref)
 CHECKS = {
+ "C20": ("exploration", "exhaustive per-option / pairwise (thorough: 3-wise) presence-combination enumeration through the real YAML and argv parsers and merge functions against a documented-defaults overlay",
+         "For each of 35 options all four presence combinations (absent / file / command line / both) with distinct values in two value variants, all pairs of options x 15 combinations, and in the thorough tier all triples, are pushed through serde_yaml -> ConfigFile -> merge_file and argv -> structopt -> merge_args; the effective Config is compared field by field with a reference overlay written from vpncloud.adoc; each effective configuration is then round-tripped through into_config_file + YAML. The netmask function (its text is cut out of src/main.rs at build time) is run on every prefix length 0..=40 x 4 addresses and a list of malformed strings.",
+         "Trusted: the hard-coded documented defaults and the option table in the harness. parse_ip_netmask is compiled from text extracted out of main.rs (main.rs cannot be a module); if the function is renamed the build fails as a machinery error.",
+         "DESIGN.md section 5 C20"),
  "C16": ("exploration", "exhaustive small-scope enumeration of message shapes and malformed inputs through the real encoders/decoders against structural references",
          "Every generated node-info / handshake / rotation message shape is encoded and decoded by the real codecs and compared with the format's normalisation; an unknown part is inserted at every part boundary; every truncation, every byte substitution (structural values in quick, all 256 in thorough) and all byte strings up to length 2 (3) go through all three decoders with and without a 64 KiB stale tail, under panic capture and a counting allocator (< 1 MiB per call). Complete enumeration of the stated domains.",
          "Trusted: the normalisation rule written in the harness from the statement; messages larger than the enumerated shapes are assumed to add nothing structurally new.",
